@@ -56,17 +56,19 @@ def pinned_theorems(mod):
 # theorems that live in another property's module (word-level lifts proved together with C05)
 MODULES = {
     "C01": (["C01"], [("C05", "C01_words")]),
-    "C05": (["C05", "C05r", "C05s"], []),
+    "C05": (["C05", "C05r", "C05s", "C05t"], []),
     "C13": (["C13", "C13r"], [("C05", "C13_leading"), ("C05", "C13_leading_pass")]),
     "C02": (["C02", "E2E"], []),
+    "C03": (["C03", "C03u"], []),
+    "C09": (["C09", "C09m", "C09d"], []),
     "C04": (["C04", "C04w"], []),
     "C07": (["C07", "C07e"], []),
     "C08": (["C08", "C08s"], []),
-    "C10": (["C10", "C19e"], []),
+    "C10": (["C10", "C19e", "C10s"], []),
     "C12": (["C12", "C12p"], []),
     "C14": (["C14", "C14o"], []),
-    "C15": (["C15", "C15r"], []),
-    "C16": (["C16", "C16b", "C16c", "C16d"], []),
+    "C15": (["C15", "C15r", "C15c"], []),
+    "C16": (["C16", "C16b", "C16c", "C16d", "C16t"], []),
     "C17": (["C17"], [("C03", "C03_parse_total"), ("C03", "C03_compile_total")]),
     "C18": (["C18", "C18q", "C18s"], []),
     "C19": (["C19", "C19e"], []),
